@@ -35,6 +35,9 @@ pub struct Scenario {
     pub acl_writes: u8,
     pub remove: Option<bool>, // Some(by_other)
     pub case_rounds: u8,
+    /// group membership changes of fabric A (key map write, AddGroup, AddGroup with another
+    /// name = rename, ...): 0 = none
+    pub groups: u8,
 }
 
 pub fn gen_scenario(rng: &mut Rng) -> Scenario {
@@ -46,6 +49,7 @@ pub fn gen_scenario(rng: &mut Rng) -> Scenario {
         acl_writes: rng.below(3) as u8,
         remove: if second_fabric && rng.bool() { Some(rng.bool()) } else { None },
         case_rounds: rng.below(3) as u8,
+        groups: if rng.chance(1, 2) { 1 + rng.below(3) as u8 } else { 0 },
     }
 }
 
@@ -69,11 +73,42 @@ pub fn build(sc: &Scenario, rng: &mut Rng) -> Vec<Step> {
     for i in 0..sc.acl_writes {
         pool.push(Step::WriteAcl { ctx: SCtx::CaseA, n: i });
     }
+    // group membership (lives in the fabric record): add, then rename once or twice
+    let mut group_steps: Vec<Step> = Vec::new();
+    if sc.groups > 0 {
+        group_steps.push(Step::GroupKeyMap { ctx: SCtx::CaseA, g: 1 });
+        for k in 0..sc.groups {
+            group_steps.push(Step::AddGroup { ctx: SCtx::CaseA, g: 1, name: k });
+        }
+    }
     for _ in 0..sc.case_rounds {
         pool.push(Step::CtlForgetSessions);
         pool.push(Step::Case { fab_b: false });
     }
     rng.shuffle(&mut pool);
+    // the group steps keep their order but are spread over the history
+    for gs in group_steps.into_iter().rev() {
+        let at = rng.usize(pool.len() + 1);
+        pool.insert(at, gs);
+    }
+    {
+        // restore the relative order of the group steps (insertion positions were random)
+        let idx: Vec<usize> = pool
+            .iter()
+            .enumerate()
+            .filter(|(_, s)| matches!(s, Step::GroupKeyMap { .. } | Step::AddGroup { .. }))
+            .map(|(i, _)| i)
+            .collect();
+        let mut gs: Vec<Step> = idx.iter().map(|i| pool[*i].clone()).collect();
+        gs.sort_by_key(|s| match s {
+            Step::GroupKeyMap { .. } => 0u16,
+            Step::AddGroup { name, .. } => 1 + *name as u16,
+            _ => 0,
+        });
+        for (i, s) in idx.into_iter().zip(gs) {
+            pool[i] = s;
+        }
+    }
     // CtlForget must be followed by a Case before the next CaseA command: re-establish lazily
     let mut fixed: Vec<Step> = Vec::new();
     let mut have_case = true;
@@ -255,6 +290,14 @@ pub fn run_one(rep: &mut Report, sc: &Scenario, replay: serde_json::Value, deep:
         return;
     }
 
+    for l in r.log.iter() {
+        match l.step {
+            Step::AddGroup { name, .. } => rep.count(if name == 0 { "group-added" } else { "group-renamed" }),
+            Step::GroupKeyMap { .. } => rep.count("group-key-map-written"),
+            _ => {}
+        }
+    }
+
     // quiescent acknowledged points, in order: (kv_ops, committed state)
     let mut points: Vec<(usize, Committed)> = vec![(0, committed(&DevDump::default()))];
     for l in r.log.iter().filter(|l| quiescent(l)) {
@@ -395,6 +438,7 @@ pub fn run(ctx: &Ctx) -> Report {
     rep.floor("C-checked", 30);
     rep.floor("D-corruptions-checked", 300);
     rep.floor("B-checked", 30);
+    rep.floor("group-renamed", 20);
 
     if let Some(r) = &ctx.replay {
         if r["family"].as_str() == Some("E") {
@@ -433,7 +477,7 @@ pub fn run(ctx: &Ctx) -> Report {
         let rj = json!({"check":"C11","scenario": format!("{:?}", sc), "shard_seed": shard_seed.to_string(), "index": idx});
         run_one(&mut rep, &sc, rj, ctx.thorough);
         let mut f = Fnv::new();
-        f.add(format!("{:?}|{}|{}|{:?}|{}", sc.second_fabric, sc.labels, sc.acl_writes, sc.remove, sc.case_rounds).as_bytes());
+        f.add(format!("{:?}|{}|{}|{:?}|{}|{}", sc.second_fabric, sc.labels, sc.acl_writes, sc.remove, sc.case_rounds, sc.groups).as_bytes());
         f.add_u64(sc.seed);
         rep.distinct.insert(f.0);
         if k < 1 {
